@@ -18,7 +18,7 @@ from pbt.engine import Skip, Sub
 
 ID = "C11"
 RULE = (
-    "Hypothesis draws a scene without Bloch phase: shape 8..14 per axis, uniform or rectilinear grid, every axis "
+    "Hypothesis draws a scene without Bloch phase: shape from {12x9x9, 9x13x10, 10x9x12}, uniform or rectilinear grid, every axis "
     "either periodic (BlochBoundary with zero vector) or two faces from {halo, PEC, PMC, PML(2..4 cells)}, "
     "isotropic background (optionally magnetic / conducting), 0..2 material boxes (isotropic/diagonal/full-tensor, "
     "lossy), 1..3 sources — always at least one TFSF source (uniform plane, Gaussian plane or TFSF box region) plus "
@@ -36,6 +36,8 @@ ASSUMPTIONS = [
     "initial fields, when present, are real and identical in both runs (cast to the storage dtype)",
 ]
 
+# a small menu of grid shapes: every new shape costs seconds of one-off XLA compiles in place_objects
+SHAPES = ((12, 9, 9), (9, 13, 10), (10, 9, 12))
 TFSF = ("uniform_plane", "gaussian_plane", "tfsf_region")
 QUAD = ("energy", "poynting")
 
@@ -61,6 +63,20 @@ def _is_aniso(m):
 
 def _iso(m):
     return {k: (v[0] if isinstance(v, list) else v) for k, v in m.items()}
+
+
+def _fit_pml(shape, faces, min_interior):
+    """Thin the drawn PMLs (never below 2 cells) until `min_interior` cells remain between them on every axis."""
+    for ax in range(3):
+        fs = [f for f in (faces[f"min_{'xyz'[ax]}"], faces[f"max_{'xyz'[ax]}"]) if f["kind"] == "pml"]
+        while fs and shape[ax] - sum(f["thickness"] for f in fs) < min_interior:
+            thick = max(fs, key=lambda f: f["thickness"])
+            if thick["thickness"] <= 2:
+                fs.remove(thick)
+                thick.pop("thickness")
+                thick["kind"] = "none"
+            else:
+                thick["thickness"] -= 1
 
 
 def _fix_poynting_axis(d):
@@ -102,13 +118,10 @@ def _planes_of(s):
 
 @st.composite
 def case_strategy(draw, ctx):
-    shape = [draw(st.integers(8, 14)) for _ in range(3)]
+    shape = list(draw(st.sampled_from(SHAPES)))
     steps = draw(st.integers(10, 30))
     faces = draw(scenes.faces_strategy(kinds=("none", "pec", "pmc", "periodic", "pml", "pml"), pml_thickness=(2, 4)))
-    for ax in range(3):  # keep >= 5 interior cells on every axis
-        fl, fh = faces[f"min_{'xyz'[ax]}"], faces[f"max_{'xyz'[ax]}"]
-        used = sum(f.get("thickness", 0) for f in (fl, fh) if f["kind"] == "pml")
-        shape[ax] = max(shape[ax], used + 5)
+    _fit_pml(shape, faces, 5)
     grid = draw(scenes.grid_strategy(shape, faces, kinds=("uniform", "uniform", "rect")))
     interior = scenes.interior_range(shape, faces)
 
@@ -242,7 +255,7 @@ def body(ctx, case):
 
 
 SUBS = [
-    Sub(name="complex_vs_real", body=body, strategy=lambda ctx: case_strategy(ctx), quick=20, thorough=800,
-        lanes=("f64", "f32"), f32_fraction=0.25, quick_shards=3,
+    Sub(name="complex_vs_real", body=body, strategy=lambda ctx: case_strategy(ctx), quick=16, thorough=800,
+        lanes=("f64", "f32"), f32_fraction=0.25, quick_shards=2,
         rule="same spec placed twice (use_complex_fields None / True); fields and detector records compared"),
 ]
